@@ -1461,8 +1461,8 @@ write_gvar_data(Relocation *cur, Initializer *init, Type *ty, char *buf, int off
 
         char *loc = buf + offset + mem->offset;
         uint64_t oldval = read_buf(loc, mem->ty->size);
-        uint64_t newval = eval(expr);
-        uint64_t mask = (1L << mem->bit_width) - 1;
+        uint64_t newval = (mem->ty->kind == TY_BOOL) ? eval_truth(expr) : eval(expr);
+        uint64_t mask = (mem->bit_width == 64) ? -1UL : (1UL << mem->bit_width) - 1;
         uint64_t combined = oldval | ((newval & mask) << mem->bit_offset);
         write_buf(loc, combined, mem->ty->size);
       } else {
@@ -1482,6 +1482,11 @@ write_gvar_data(Relocation *cur, Initializer *init, Type *ty, char *buf, int off
 
   if (!init->expr)
     return cur;
+
+  if (ty->kind == TY_BOOL) {
+    buf[offset] = eval_truth(init->expr);
+    return cur;
+  }
 
   if (ty->kind == TY_FLOAT) {
     *(float *)(buf + offset) = eval_double(init->expr);
